@@ -39,6 +39,75 @@ def build_all(c, programs, env, log):
     return xl, b
 
 
+def jit_crosscheck(c, programs, env, log, deadline):
+    """thorough tier, supporting evidence only: the real JIT path with libgomp and real threads, OMP_NUM_THREADS 1..16
+    x OMP_SCHEDULE {unset, static/dynamic x chunk 1,2,7}; outputs compared with the Serial kernel's."""
+    from vlib import batch
+    jit = c.compile(os.path.join(os.path.dirname(os.path.abspath(__file__)), "jit.cpp"), "jit", variant=h20.XLATE_VARIANT, opt="-O1")
+    wd = os.path.join(c.scratch, "jit")
+    os.makedirs(wd, exist_ok=True)
+    items = []
+    for p in programs:
+        okl = h20.write(os.path.join(wd, p.name + ".okl"), p.okl)
+        spec = []
+        for a in p.args:
+            if a.kind == "int":
+                spec.append("i:" + a.name)
+            elif a.kind == "float":
+                spec.append("f:w")
+            else:
+                spec.append("a:%d:%d:%d" % (0 if a.kind == "in" else (2 if a.name == "cnt" else 1), a.coef, a.fixed))
+        items.append("%s\t%s\t%s" % (p.name, okl, ",".join(spec)))
+    e0 = dict(env)
+    e0["OCCA_CACHE_DIR"] = os.path.join(wd, "cache")
+    e0["OMP_NUM_THREADS"] = "2"
+    stats = {"runs": 0, "same": 0, "differ": 0, "unbuilt": 0, "crashed": 0, "configurations": 0, "differing": []}
+
+    def count(res, cfg):
+        for p, r in zip(programs, res):
+            if r.crash:
+                stats["crashed"] += 1
+                continue
+            for ln in r.lines:
+                f = ln.split(None, 4)
+                if len(f) >= 4 and f[0] == "J":
+                    stats["runs"] += 1
+                    stats[f[3]] = stats.get(f[3], 0) + 1
+                    if f[3] == "differ" and len(stats["differing"]) < 10:
+                        stats["differing"].append("%s %s %s: %s" % (p.desc(), cfg, f[2], f[4] if len(f) > 4 else ""))
+
+    # warm-up: JIT-compiles every kernel once into the shared cache (distinct kernels, distinct cache entries)
+    res, complete = batch.run_items([jit], items, os.path.join(wd, "warm"), e0, chunk=max(1, -(-len(items) // NCPU)), per_item_timeout=300)
+    count(res, "threads=2")
+    stats["configurations"] += 1
+    log("JIT cross-check: %d kernels built" % len(items))
+    configs = []
+    for t in range(1, 17):
+        for sched in (None, "static,1", "static,2", "static,7", "dynamic,1", "dynamic,2", "dynamic,7"):
+            configs.append((t, sched))
+
+    def one(cfg):
+        if time.time() > deadline:
+            return cfg, None
+        t, sched = cfg
+        e = dict(e0)
+        e["OMP_NUM_THREADS"] = str(t)
+        if sched:
+            e["OMP_SCHEDULE"] = sched
+        r, _ = batch.run_items([jit], items, os.path.join(wd, "t%d-%s" % (t, (sched or "default").replace(",", "_"))), e,
+                               chunk=len(items), per_item_timeout=60)
+        return cfg, r
+
+    with ThreadPoolExecutor(max_workers=4) as ex:
+        for cfg, r in ex.map(one, configs):
+            if r is None:
+                stats["skipped_configurations"] = stats.get("skipped_configurations", 0) + 1
+                continue
+            stats["configurations"] += 1
+            count(r, "threads=%d schedule=%s" % cfg)
+    return stats
+
+
 def main():
     c = Check("C21", "model_checking")
     c.build(h20.XLATE_VARIANT)
@@ -72,7 +141,7 @@ def main():
         c.harness_error("ompx self-test failed - trusted base broken:\n" + text)
     programs = hs.programs(c.tier)
     xl, b = build_all(c, programs, env, log)
-    deadline = c.t0 + c.budget(600, 2400)
+    deadline = c.t0 + c.budget(2400, 10800)     # generous: the sandbox is shared; see wall_s
     max_exec = 4000 if c.tier == "quick" else 60000
     sem = threading.BoundedSemaphore(NCPU)
     results = {}
@@ -126,12 +195,15 @@ def main():
             for k in tot:
                 tot[k] += e.get(k, 0)
             cells += 1
+            key = (p.name, e["N"], e["T"])
             if e["complete"]:
                 cells_complete += 1
-                key = (p.name, e["N"], e["T"])
                 max_bound_completed[key] = max(max_bound_completed.get(key, -1), e["bound"])
+                if e["bound"] == 0 and (e["atomics"] + e["criticals"] == 0 or e["T"] == 1):
+                    max_bound_completed[key] = 2      # no visible operation / one thread: no further schedules exist
             else:
                 incomplete[0] = True
+                max_bound_completed.setdefault(key, -1)
             if e["maxpre"] > 0:
                 preempted_execs += e["executions"]
         for x in r["races"]:
@@ -159,13 +231,24 @@ def main():
         rep.update(extra)
         c.violation(sig, "%s%s: %s" % (p.desc(), (" [" + p.info["variant"] + " variant]") if p.info["variant"] else "", detail), rep)
 
-    # vacuity guards
+    # vacuity guards (a run that found violations is not vacuous; a translation that lost its atomic/critical
+    # lowering must be reported through the races it causes, not as a harness problem)
     c.vacuity(judged_programs == len(programs) or incomplete[0], "%d of %d programs explored" % (judged_programs, len(programs)))
-    c.vacuity(tot["atomics"] > 0, "no atomic operation was executed")
-    c.vacuity(tot["criticals"] > 0, "no omp critical section was executed")
-    c.vacuity(preempted_execs > 0, "no execution with a preemption was explored")
-    c.vacuity(tot["blocked"] > 0, "the critical lock was never contended in any explored schedule")
     c.vacuity(tot["executions"] > 10 * len(programs), "too few executions")
+    if not c.violations:
+        c.vacuity(tot["atomics"] > 0, "no atomic operation was executed")
+        c.vacuity(tot["criticals"] > 0, "no omp critical section was executed")
+        c.vacuity(preempted_execs > 0, "no execution with a preemption was explored")
+        c.vacuity(tot["blocked"] > 0, "the critical lock was never contended in any explored schedule")
+
+    jit = None
+    if c.tier == "thorough" and time.time() < deadline:
+        jit = jit_crosscheck(c, programs, env, log, deadline)
+        log("JIT cross-check: %s" % {k: v for k, v in jit.items() if k != "differing"})
+        if (jit["differ"] or jit["crashed"]) and not c.violations:
+            c.harness_error("the free-running cross-check (real JIT path, libgomp) disagrees with the Serial kernel although the "
+                            "model-checking pass found nothing - the model misses something: %s" % jit["differing"][:3])
+        c.coverage["jit_crosscheck_supporting_evidence"] = jit
 
     bounds = sorted(set(max_bound_completed.values()))
     c.set_model_checking(
@@ -177,6 +260,8 @@ def main():
         executions_in_cells_with_preemptions=preempted_execs,
         cells_program_N_T_bound=cells, cells_completed=cells_complete,
         lowest_preemption_bound_completed_over_cells=(bounds[0] if bounds else None),
+        cells_program_N_T_by_highest_completed_preemption_bound=dict(
+            (str(b_), sum(1 for v in max_bound_completed.values() if v == b_)) for b_ in (-1, 0, 1, 2)),
         max_executions_per_cell=max_exec,
         rule="programs = the C20 set (base + all subsets of size <= %d of 16 OKL features) + a variant with a general @atomic "
              "block for every program with @atomic; per program N in {0,1,3,4}, T in {1,2,3,N} virtual threads; all T! orders of "
